@@ -271,7 +271,7 @@ def gen_lookup(r: Any, string: str) -> dict | None:
     return lk
 
 
-TIMESPANS = ["1", "1", "1/2", "1/10", "2", "10", "1/4", "1/1000", "3", "5"]
+TIMESPANS = ["1", "1", "1/2", "1/10", "2", "10", "1/4", "1/1000", "3", "5", "0"]    # (a zero timespan is legal: every marble at the shift)
 
 
 def time_arg(fr: Fraction, form: str) -> Any:
